@@ -613,7 +613,13 @@ def decide_scenario(scn, families, mode, seed, points=3):
             try:
                 obs = list(run_family(S, fam, F))
             except ZeroDivisionError as e:
-                results.append(dict(name="S:%s[%s]" % (fam, scn["scenario"]), ok=None, mode="sym", detail="zero pivot: %s" % e))
+                # exact arithmetic in Q(inputs): the divisor is the ZERO ELEMENT of the field, i.e. the recorded code divides by an
+                # expression that vanishes for EVERY input of this shape (a singular system): no input gets a number -> violation
+                Fp, pt = pit_field(False)
+                for pid_ in ("C02", "C03", "C16"):      # no value at all: not an interpolant, no end condition met, nothing reproduced
+                    results.append(dict(name="S:%s:divides-by-identically-zero[%s]" % (pid_, fam), ok=False, mode="exact-symbolic Q(%d gens)" % len(names),
+                                        detail=dict(witness={k: str(v) for k, v in pt.items() if k in shadows or k[0] in "CS"},
+                                                    residuals=["division by an expression that is identically zero in Q(inputs): %s" % e])))
                 continue
             failed = []
             for name, res in obs:
@@ -632,11 +638,13 @@ def decide_scenario(scn, families, mode, seed, points=3):
         else:
             agg = {}
             first_pt = None
+            zero_div = []
             for p in range(points):
                 Fp, pt = pit_field(p > 0)
                 try:
                     obs = list(run_family(S, fam, Fp))
                 except ZeroDivisionError:
+                    zero_div.append(pt)
                     continue
                 for name, res in obs:
                     ok = all(r == 0 for r in res)
@@ -644,6 +652,13 @@ def decide_scenario(scn, families, mode, seed, points=3):
                     if not ok and a["ok"]:
                         a["ok"] = False
                         a["detail"] = dict(witness={k: str(v) for k, v in pt.items() if k in shadows or k[0] in "CS"}, residuals=[str(x) for x in res])
+            if zero_div and len(zero_div) == points:
+                # every one of the independent random rational points divides by zero: the divisor vanishes identically (identity test)
+                for pid_ in ("C02", "C03", "C16"):
+                    results.append(dict(name="S:%s:divides-by-zero-at-every-point[%s]" % (pid_, fam), ok=False,
+                                        mode="exact evaluation at %d rational points (identity test)" % points,
+                                        detail=dict(witness={k: str(v) for k, v in zero_div[0].items() if k in shadows or k[0] in "CS"},
+                                                    residuals=["division by zero at each of %d independent random rational points" % points])))
             for name, a in agg.items():
                 results.append(dict(name="S:" + name, ok=a["ok"], mode="exact evaluation at %d rational points (identity test)" % points, detail=a["detail"]))
     return results
